@@ -24,7 +24,7 @@ SHRINK = {"text": "str", "schedule": "list"}
 CHUNKS = [1, 2, 3, 4, 5, 7, 16, 64, 10240]
 KINDS = ["str", "stringio", "textstream", "bytes", "bytesio", "bytestream"]
 ENCODINGS = ["utf-8", "windows-1252", "iso-8859-2", "shift_jis", "euc-jp", "gbk", "big5", "euc-kr", "koi8-r", "windows-1251", "gb18030", "iso-8859-15",
-             "bom-utf-8", "bom-utf-16le", "bom-utf-16be"]
+             "bom-utf-8", "bom-utf-16le", "bom-utf-16be", "utf-16le", "utf-16be", "utf-16"]
 PYCODEC = {"windows-1252": "cp1252", "windows-1251": "cp1251", "euc-kr": "cp949", "shift_jis": "cp932", "big5": "big5hkscs", "iso-8859-15": "iso8859-15"}
 
 
@@ -68,11 +68,18 @@ def project(text, enc):
         bom = {"utf-8": codecs.BOM_UTF8, "utf-16le": codecs.BOM_UTF16_LE, "utf-16be": codecs.BOM_UTF16_BE}[label]
         body = text.encode(py, "ignore")
         ref = body.decode(py, "replace")
+        body = ref.encode(py, "ignore")
+        ref = body.decode(py, "replace")
         return bom + body, ref, label, "bom"
     py = webencodings.lookup(enc).codec_info.name
+    if py == "utf-16":
+        py = "utf-16-le"        # the label utf-16 means UTF-16LE; no BOM is written here
     body = text.encode(py, "ignore")
+    # to a fixed point: the byte string must be a valid, complete encoding of the reference text
+    ref = body.decode(py, "replace")
+    body = ref.encode(py, "ignore")
     if body[:3] == codecs.BOM_UTF8 or body[:2] in (codecs.BOM_UTF16_LE, codecs.BOM_UTF16_BE):
-        body = b" " + body
+        body = " ".encode(py) + body
     ref = body.decode(py, "replace")
     return body, ref, enc, "arg"
 
